@@ -191,15 +191,12 @@ def loopless_solution(
     with model:
         prob = model.problem
         # Fix the objective
-        # at least as good as before in the direction of the optimization
-        if model.objective_direction == "max":
-            objective_bound = {"lb": opt}
-        else:
-            objective_bound = {"ub": opt}
+        # keep the objective value, whatever the direction of the optimization
         loopless_obj_constraint = prob.Constraint(
             model.objective.expression,
+            lb=opt,
+            ub=opt,
             name="loopless_obj_constraint",
-            **objective_bound,
         )
         model.add_cons_vars([loopless_obj_constraint])
         _add_cycle_free(model, fluxes)
